@@ -53,7 +53,7 @@ Qed.
 
 Fixpoint eval_nat (e : expr) : forall rho k k', krel k k' -> h (eval O R err rho e k) = eval O R' err' rho e k'.
 Proof.
-  destruct e as [v|x|e a|o a b|a rest|a b|a b|a|c a b|elt x it cond|elt x it cond|e key|e n|e|es|neg e c|f args|a b|elt x it cond];
+  destruct e as [v|x|e a|o a b|a rest|a b|a b|a|c a b|elt x it cond|elt x it cond|e key|e n|e|es|neg e c|f args|a b|elt x it cond|p args];
     intros rho k k' Hk; simpl.
   - apply Hk.
   - apply Hk.
@@ -94,6 +94,9 @@ Proof.
     + apply eval_nat. intros vc. apply bool_k_nat. intros [|]; [|apply Hkk].
       apply eval_nat. intros ve. apply Hkk.
     + apply eval_nat. intros ve. apply Hkk.
+  - generalize (@nil val) as acc. induction args as [|e1 es IH]; intros acc.
+    + destruct (prim_apply p (rev acc)); auto; apply Hk.
+    + apply eval_nat. intros v. destruct v; auto; apply IH.
 Qed.
 
 Variables (kret : env -> val -> R) (kret' : env -> val -> R').
@@ -102,7 +105,7 @@ Hypothesis Hret : forall rho v, h (kret rho v) = kret' rho v.
 Fixpoint exec_nat (s : stmt) : forall rho k k', krel k k' ->
   h (exec O R kret err s rho k) = exec O R' kret' err' s rho k'.
 Proof.
-  destruct s as [ts e|t o e|c th el|x e|e|x it body|e|ts e|c body| | |x e|]; intros rho k k' Hk; simpl.
+  destruct s as [ts e|t o e|c th el|x e|e|x it body|e|ts e|c body| | |x e| |x i e]; intros rho k k' Hk; simpl.
   - apply eval_nat. intros v. apply Hk.
   - apply eval_nat. intros v. apply arith_k_nat. intros r. apply Hk.
   - apply eval_nat. intros vc. apply bool_k_nat. intros [|].
@@ -138,6 +141,8 @@ Proof.
   - apply Hk.
   - apply eval_nat. intros v. destruct (lookup x rho); auto; apply Hk.
   - apply Hk.
+  - apply eval_nat. intros v. apply eval_nat. intros vi.
+    destruct v; auto; destruct (setitem (lookup x rho) vi _); auto; apply Hk.
 Qed.
 
 Lemma exec_block_nat : forall l rho k k', krel k k' ->
